@@ -5,7 +5,7 @@
     Matrices are the flat row-major arrays of the Rust slices: [getm a n i j = nth (i*n+j) a 0]. *)
 From Coq Require Import List Arith Bool ZArith QArith Reals Permutation Lia Lra Floats.
 From Compute Require Import Base.Ops Base.ListMat Model.Reduce Model.MatMul Model.Subst Model.Cholesky Model.LU
-  Spec.Factor Proofs.LinAlgBase Proofs.C11_Subst Proofs.C11_Chol Proofs.C11_LU Proofs.C11_Solve Proofs.C11_Det Proofs.C11_Forms Proofs.C11_Sign.
+  Spec.Factor Proofs.LinAlgBase Proofs.C11_Subst Proofs.C11_Pred Proofs.C11_Chol Proofs.C11_SPD Proofs.C11_LU Proofs.C11_Solve Proofs.C11_Det Proofs.C11_Forms Proofs.C11_Sign.
 Import ListNotations.
 Local Open Scope R_scope.
 
@@ -71,44 +71,67 @@ Example C11_fwd_subst_example :
   exists x, forward_substitution QO [2;0;1;4]%Q [2;9]%Q = Some x /\ x = [1;2]%Q.
 Proof. eexists; split; vm_compute; reflexivity. Qed.
 
-(** ** Cholesky *)
+(** ** Cholesky (after the repairs of D1 and of the absolute symmetry tolerance, made for property C01:
+    [cholesky] = [try_cholesky(..).expect(..)], [Matrix::cholesky] asserts every pivot positive) *)
 
-(** acceptance / rejection of [cholesky]: not a square length => panic; symmetric within 2^-52 =>
-    a factor of the right size; an entry pair further apart => panic *)
+(** acceptance / rejection of [cholesky]: not a square length => panic; an entry pair further apart than
+    2^-52 relative to the larger magnitude => panic; otherwise the outcome of the checked sweep *)
 Theorem C11_cholesky_shape :
   forall a : list R,
     match is_square (length a) with
     | None => cholesky RO a = None
     | Some n => if is_symmetric_rows RO (unflatten a n n) n
-                then exists l, cholesky RO a = Some l /\ length l = (n * n)%nat
+                then cholesky RO a = option_map flatten (try_chol_rows RO false (unflatten a n n) n)
                 else cholesky RO a = None
     end.
 Proof. exact @cholesky_shape. Qed.
 
-Theorem C11_cholesky_accepts_symmetric :
-  forall (a : list R) (n : nat),
-    (n * n)%nat = length a -> symmetric a n -> exists l, cholesky RO a = Some l /\ length l = (n * n)%nat.
-Proof. exact @cholesky_accepts. Qed.
-
 Theorem C11_cholesky_rejects_asymmetric :
   forall (a : list R) (n i j : nat),
     (n * n)%nat = length a -> (i < n)%nat -> (j < n)%nat ->
-    eps RO < Rabs (getm a n i j - getm a n j i) -> cholesky RO a = None.
+    sym_tol (getm a n i j) (getm a n j i) < Rabs (getm a n i j - getm a n j i) -> cholesky RO a = None.
 Proof. exact @cholesky_rejects_asymmetric. Qed.
 
-(** the main claim: whenever the returned factor has a positive diagonal (i.e. every pivot
-    a_ii - sum_k l_ik^2 was positive; on the reals sqrt of a non-positive number is 0), it is lower
-    triangular and L.L^T reproduces the lower triangle of A — all of A when A is symmetric.  For EVERY
-    order n. *)
+(** the main claim, for EVERY order n: a returned factor is lower triangular, has a positive diagonal
+    and L.L^T reproduces the lower triangle of A — all of A when A is symmetric.  No hypothesis on the
+    pivots is left: a factor is returned only if every pivot passed the [d > 0] test. *)
 Theorem C11_chol_reconstructs :
   forall (a l : list R) (n : nat),
     cholesky RO a = Some l -> (n * n)%nat = length a ->
-    (forall i, (i < n)%nat -> 0 < getm l n i i) ->
     length l = (n * n)%nat /\ lower_triangular l n /\
+    (forall i, (i < n)%nat -> 0 < getm l n i i) /\
     (forall i j, (i < n)%nat -> (j <= i)%nat -> rsum (fun k => getm l n i k * getm l n j k) n = getm a n i j) /\
     (symmetric a n -> forall i j, (i < n)%nat -> (j < n)%nat ->
        rsum (fun k => getm l n i k * getm l n j k) n = getm a n i j).
 Proof. exact @chol_reconstructs. Qed.
+
+(** rejection half (D1): a pivot that is not positive makes [cholesky] panic and [try_cholesky] return
+    [None] (or panic) — no factor with a zero or NaN diagonal is ever returned *)
+Theorem C11_chol_rejects_nonpositive_pivot :
+  forall (a : list R) (n i : nat),
+    (n * n)%nat = length a -> (i < n)%nat ->
+    piv (unflatten a n n) (chol_rows RO false (unflatten a n n) n) i <= 0 ->
+    cholesky RO a = None /\ (try_cholesky RO a = None \/ try_cholesky RO a = Some None).
+Proof. exact @chol_rejects_nonpositive_pivot. Qed.
+
+(** for symmetric input [cholesky] succeeds EXACTLY on the positive definite matrices:
+    completeness (extension; the pivot of row i is the quadratic form at an explicit vector) ... *)
+Theorem C11_cholesky_accepts_spd :
+  forall (a : list R) (n : nat),
+    (n * n)%nat = length a -> symmetric a n -> positive_definite a n ->
+    exists l, cholesky RO a = Some l.
+Proof. exact @spd_cholesky. Qed.
+
+(** ... and rejection: input that is not positive definite is rejected *)
+Theorem C11_cholesky_rejects_not_positive_definite :
+  forall (a : list R) (n : nat),
+    (n * n)%nat = length a -> symmetric a n -> ~ positive_definite a n -> cholesky RO a = None.
+Proof. exact @cholesky_rejects_not_pd. Qed.
+
+Theorem C11_cholesky_factor_implies_positive_definite :
+  forall (a l : list R) (n : nat),
+    cholesky RO a = Some l -> (n * n)%nat = length a -> symmetric a n -> positive_definite a n.
+Proof. exact @cholesky_some_pd. Qed.
 
 (** slice form and [Matrix] form return identical factors in exact arithmetic (D36: on binary64 they
     differ in the last bit from n = 16 on, because the 8-way unrolled dot products see different lengths) *)
@@ -119,11 +142,11 @@ Theorem C11_slice_eq_matrix_cholesky :
 Proof. exact @matrix_cholesky_eq_slice. Qed.
 
 Theorem C11_chol_dot_form_irrelevant :
-  forall (A : list (list R)) (n : nat), chol_rows RO true A n = chol_rows RO false A n.
-Proof. exact @chol_rows_full_irrelevant. Qed.
+  forall (A : list (list R)) (n : nat),
+    chol_rows RO true A n = chol_rows RO false A n /\ try_chol_rows RO true A n = try_chol_rows RO false A n.
+Proof. exact @chol_dot_form_irrelevant. Qed.
 
-(** satisfiable: A = [[4,2],[2,5]] has the factor [[2,0],[1,2]] (computed on rationals; the square
-    roots happen to be exact, checked through L.L^T) *)
+(** satisfiable: A = [[4,2],[2,5]] has the factor [[2,0],[1,2]] *)
 Example C11_chol_example :
   let l := [2;0;1;2]%R in
   (forall i, (i < 2)%nat -> 0 < getm l 2 i i) /\
@@ -134,6 +157,10 @@ Proof.
   - intros [|[|i]] H; try lia; unfold getm; simpl; lra.
   - intros [|[|i]] [|[|j]] Hi Hj; try lia; unfold getm; simpl; lra.
 Qed.
+
+(** D1's witness [[1,2],[2,1]] (symmetric, positive diagonal, indefinite) is rejected: on the reals ... *)
+Theorem C11_chol_indefinite_rejected : cholesky RO [1; 2; 2; 1] = None.
+Proof. exact @d1_matrix_rejected. Qed.
 
 (** ** Pivoted LU *)
 
@@ -281,11 +308,12 @@ Theorem C11_lu_singular_column_skips_scaling :
   forall (M : list (list R)) (j : nat), ent 0 M j j = 0 -> scale_col RO M j = M.
 Proof. exact @scale_col_skips. Qed.
 
-(** D1 (left to C01): on binary64 the model, like the code, returns NaN for a symmetric indefinite
-    matrix with positive diagonal instead of rejecting it *)
-Example C11_chol_indefinite_nan :
-  fout_eqb (opt_out (cholesky FO0 [1; 2; 2; 1]%float)) (Val [1; 0; 2; nan]%float) = true.
-Proof. vm_compute. reflexivity. Qed.
+(** ... and on binary64: the model, like the repaired code, panics (slice and Matrix form) where the
+    original code returned [1, 0, 2, NaN]; [try_cholesky] answers [None] *)
+Example C11_chol_indefinite_rejected_binary64 :
+  cholesky FO0 [1; 2; 2; 1]%float = None /\ try_cholesky FO0 [1; 2; 2; 1]%float = Some None /\
+  matrix_cholesky FO0 {| nr := 2; nc := 2; dat := [1; 2; 2; 1]%float |} = None.
+Proof. repeat split; vm_compute; reflexivity. Qed.
 
 (** ** Further instances (rational arithmetic, computed in the kernel) *)
 Example C11_back_subst_example :
